@@ -77,9 +77,9 @@ package envelope
 //@   ensures [C08] spec: result1 == nil ==> result0 == ucanCid(absorbed(hash))
 //@
 //@ func NewCIDReader
-//@   ensures [C08] fresh: result != nil && result.r == r && result.err == nil && result.hash != nil && absorbed(result.hash) == ""
+//@   ensures [C08] fresh: result != nil && result.r == r && result.err == nil && result.hash != nil && absorbed(result.hash) == "" && fresh(result)
 //@ func NewCIDWriter
-//@   ensures [C08] fresh: result != nil && result.w == w && result.err == nil && result.hash != nil && absorbed(result.hash) == ""
+//@   ensures [C08] fresh: result != nil && result.w == w && result.err == nil && result.hash != nil && absorbed(result.hash) == "" && fresh(result)
 //@
 //@ // Read: a non-EOF error of the underlying reader is latched in r.err (and never cleared);
 //@ // otherwise exactly the bytes handed to the caller are absorbed by the hash
@@ -87,7 +87,7 @@ package envelope
 //@   requires r != nil && r.r != nil && r.hash != nil
 //@   ensures [C18] latch: (err != nil && err != io.EOF) ==> r.err != nil && failed(r.r)
 //@   ensures [C18] sticky: old(r.err) != nil ==> r.err != nil
-//@   ensures [C08,C18] absorb: (err == nil || err == io.EOF) ==> absorbed(r.hash) == old(absorbed(r.hash)) ++ bytes(p[0:n]) && delivered(r.r) == old(delivered(r.r)) ++ bytes(p[0:n])
+//@   ensures [C08,C18] absorb: (err == nil || err == io.EOF) ==> absorbed(r.hash) == old(absorbed(r.hash)) ++ bytes(p[0:n]) && delivered(r.r) == old(delivered(r.r)) ++ bytes(p[0:n]) && failed(r.r) == old(failed(r.r))
 //@   ensures [C18] nochange: (err != nil && err != io.EOF) ==> absorbed(r.hash) == old(absorbed(r.hash))
 //@   assigns p, r.err, delivered(r.r), failed(r.r), absorbed(r.hash)
 //@
@@ -100,7 +100,7 @@ package envelope
 //@ // Write: the bytes are absorbed by the hash and handed to the sink; an error of the sink is returned
 //@ func (*CIDWriter).Write
 //@   requires w != nil && w.w != nil && w.hash != nil
-//@   ensures [C08,C18] through: err == nil ==> n == len(p) && absorbed(w.hash) == old(absorbed(w.hash)) ++ bytes(p) && written(w.w) == old(written(w.w)) ++ bytes(p)
+//@   ensures [C08,C18] through: err == nil ==> n == len(p) && absorbed(w.hash) == old(absorbed(w.hash)) ++ bytes(p) && written(w.w) == old(written(w.w)) ++ bytes(p) && wfailed(w.w) == old(wfailed(w.w))
 //@   ensures [C18] fault: wfailed(w.w) && !old(wfailed(w.w)) ==> err != nil
 //@   assigns w.err, absorbed(w.hash), written(w.w), wfailed(w.w)
 //@
